@@ -33,7 +33,6 @@ Definition pc_eqb (a b : pc) : bool :=
   | U0, U0 | PK, PK | C1, C1 | C2, C2 | C3, C3 | C4, C4 | GW, GW | RG, RG | RUh, RUh | RUi, RUi | RUx, RUx
   | HoldW, HoldW | HoldR, HoldR | DWP, DWP | DR0, DR0 => true
   | _, _ => false end.
-Definition isRPark (c : ctx) := match c with RPark => true | _ => false end.
 Definition op_eqb (a b : op) : bool :=
   match a, b with ORead, ORead | OTryRead, OTryRead | OWrite, OWrite | OTryWrite, OTryWrite => true | _, _ => false end.
 Definition mem (a : nat) (l : list nat) : bool := existsb (Nat.eqb a) l.
